@@ -15,12 +15,16 @@ PROP = {'streams': [('c18', 1500, 100000), ('c18symc', 1500, 100000)],
          'store (implementation-level), with the same on the store completed with default entities for absent uids, and, through the model line '
          '`(symcc (ps (effect outcome)..) (ps ..))`, with the prediction of the Lean skeleton from Rust\'s concrete outcomes; non-trivial = distinct '
          '(policy, request, store, outcome). Stream c18symc (the compiler fragment modelled in Lean): one case = one random expression of the '
-         'fragment (bool/long/string/entity literals, principal/action/resource, ! - && || if == < <= + - *, longs near the i64 bounds) as the '
-         'when-clause of a static policy on a fixed schema and request; the real typechecker + compiler run through '
+         'fragment (bool/long/string/entity literals, principal/action/resource, ! - && || if == < <= + - *, longs near the i64 bounds, and `context`, '
+         '`context.a`, `context has a` over a context type with required Bool/Long and optional Long/String/User attributes, optional ones behind has-guards, '
+         'undeclared attributes, `context == context`) as the when-clause of a static policy on a fixed schema and a request whose context supplies each optional '
+         'attribute with probability 1/2; the real typechecker + compiler run through '
          'CompiledPolicy::compile_with_custom_symenv on SymEnv::from_concrete_env, the compiled term is read back from the Debug output and must be '
          'the literal some true / some false / none; it is compared with Evaluator::evaluate (implementation-level) and, through the model line '
-         '`(symc REQ (etys ..) EXPR)`, with the term the Lean compiler model folds; non-trivial = distinct (expression, principal, action)',
- 'theorems': ['compile_correct_fragment',
+         '`(symc REQ (etys ..) (ctxty ..) EXPR)`, with the term the Lean compiler model folds on the context term ctxTermOf builds; non-trivial = distinct '
+         '(expression, principal, action, context)',
+ 'theorems': ['compile_correct_fragment2',
+              'compile_correct_fragment',
               'compilePolicy_discharged',
               'compilePolicies_discharged',
               'vc_skeleton_correct_fragment',
@@ -36,7 +40,12 @@ PROP = {'streams': [('c18', 1500, 100000), ('c18symc', 1500, 100000)],
               'disjoint_iff',
               'opt_agrees',
               'isAuthorized_compiled'],
- 'assumptions': ['A FIRST FRAGMENT OF THE COMPILE STEP IS MODELLED AND PROVED (Cedar/SymCompile.lean: Term with App nodes, factory not/and/or/eq/ite/'
+ 'assumptions': ['SECOND ROUND: the fragment now also covers `context`, `e.a` and `e has a` on record-typed terms (record terms / record term types, compile_attrs_of/'
+                 'has_attr/get_attr, factory record_get/is_some, the Record arm of Term::from_value for a FLAT context type = ctxTermOf): compile_correct_fragment2 '
+                 'assumes the context term represents the context attribute by attribute (CtxOK: required -> literal, optional present -> some literal, absent -> '
+                 'none; primitive attribute values only); that ctxTermOf satisfies CtxOK is shown on an example and sampled by stream c18symc, not proved in general; '
+                 'attribute access on entity-typed terms, record literals, sets, like, is, nested-record/set context attributes remain outside. '
+                 'A FIRST FRAGMENT OF THE COMPILE STEP IS MODELLED AND PROVED (Cedar/SymCompile.lean: Term with App nodes, factory not/and/or/eq/ite/'
                  'bvneg/bvadd/bvsub/bvmul/bvslt/bvsle/bvnego/bvsaddo/bvssubo/bvsmulo/option_get/is_none/if_false/if_some, compile_prim/var/app1/app2/'
                  'if/and/or and `compile` for literals, principal/action/resource, ! - && || if == < <= + - *): compile_correct_fragment proves that '
                  'whenever the compiler accepts a fragment expression on the literal environment the term is some(lit v) / none exactly as evaluate '
@@ -56,8 +65,9 @@ PROP = {'streams': [('c18', 1500, 100000), ('c18symc', 1500, 100000)],
                  'default entities must agree with SymCC) and reported as known-finding hits, never as agreement',
                  'templates / linked policies are not compiled (SymCC rejects them); request environments are those of the generated requests']}
 
-TEXT = ('Lean model `Cedar.SymC` (Cedar/SymCompile.lean): a first fragment of the symbolic compiler and term factory (literals, principal/action/'
- 'resource, ! - && || if == < <= + - * with overflow -> none; every branch of the mirrored factory functions, App nodes kept). Theorem '
+TEXT = ('Lean model `Cedar.SymC` (Cedar/SymCompile.lean): a fragment of the symbolic compiler and term factory (literals, principal/action/'
+ 'resource, ! - && || if == < <= + - * with overflow -> none; second round: record terms, `context`, `e.a` / `e has a` on record-typed terms with optional '
+ 'attributes as option-typed fields, theorem `compile_correct_fragment2` under the hypothesis that the context term represents the flat context; every branch of the mirrored factory functions, App nodes kept). Theorem '
  '`compile_correct_fragment`: on the literal environment of any request, if the compiler accepts a fragment expression the term it builds is already '
  'the folded literal some(lit v) / none matching `evaluate`; `compilePolicy_discharged` / `vc_skeleton_correct_fragment`: for policies whose '
  'conditions are in the fragment the compile contract of the skeleton is discharged, so every verification condition states what the concrete '
